@@ -141,6 +141,33 @@ def assigned_object(cls: type, kind: str, fa: dict[str, Any], fb: dict[str, Any]
     return a
 
 
+def parsed_then_assigned(cls: type, kind: str, fa: dict[str, Any], fb: dict[str, Any]) -> Any | None:
+    """Like assigned_object(), but the object that gets fb's values was obtained by PARSING the bytes of a request
+    with the parameters fa (a replay / fuzzing script that takes a recorded request as template and edits it).
+    None under the same conditions as assigned_object()."""
+    try:
+        a = S.UDSRequest.parse_dynamic(bytes(cls(**ctor_kwargs(cls, kind, fa)).pdu))
+        b = cls(**ctor_kwargs(cls, kind, fb))
+    except Exception:  # noqa: BLE001
+        return None
+    if type(a) is not type(b):
+        return None
+    names = [n for n in vars(b) if not n.startswith("_")]
+    for klass in type(b).__mro__:
+        for n, d in vars(klass).items():
+            if isinstance(d, property) and d.fset is not None and not n.startswith("_") and n not in names:
+                names.append(n)
+    try:
+        for n in names:
+            setattr(a, n, copy.deepcopy(getattr(b, n)))
+        expose_request(a)
+    except Machinery:
+        raise
+    except Exception:  # noqa: BLE001
+        return None
+    return a
+
+
 def exec_request(cls: type, kind: str, f: dict[str, Any], obj: Any = None) -> tuple[dict[str, Any], dict[str, Any]]:
     """Construct (or take the given object), serialise, parse back (class and dynamic).  Returns (trace record, notes)."""
     rec: dict[str, Any] = {"kind": kind, "f": f, "built": {"ok": False}, "pdu": {"ok": False, "b": []},
